@@ -10,11 +10,11 @@ META = {
     'functions': ['enspara.tpt.tpt._get_data_from_tprob', 'enspara.tpt.tpt.reactive_fluxes', 'enspara.tpt.tpt.net_fluxes',
                   'enspara.tpt.tpt.reactive_populations', 'enspara.tpt.core.committors'],
     'bounds': {'quick': 'reversible T with its stationary populations (given), n<=3 dense, every disjoint source/sink set pair; '
-                        'n=4 on a nearest-neighbour chain pattern',
+                        'n=4 on a nearest-neighbour chain pattern; each of the 7 scipy.sparse containers at n=3',
                'thorough': 'n=4 dense, chain, ring and star patterns with one- and two-state source/sink sets; n=5 chains (reported inconclusive where z3 gives up)'},
-    'stubs': ['spsolve on a dense operand = fresh x with A.x = b'],
+    'stubs': ['spsolve on a dense operand = fresh x with A.x = b', 'scipy.sparse classes = symbolic shadow symnp/sparse.py (result formats, element types, copy/share rules of the operations used; np.matrix results as 2-D arrays; stored pattern of a matrix built from dense = cells that are not the constant zero); validated against the installed scipy by the `sparse-shadow-conformance` job on every run; replays run the real scipy classes'],
     'assumptions': ['exact real arithmetic (QF_NRA)', 'detailed balance pi_i T_ij = pi_j T_ji, pi>0, sum pi = 1, T row-stochastic'],
-    'outside': ['sparse containers', 'non-reversible chains for the conservation clauses (the code uses q- = 1 - q+)'],
+    'outside': ['non-reversible chains for the conservation clauses (the code uses q- = 1 - q+)'],
 }
 
 
@@ -30,6 +30,12 @@ def jobs(tier):
     for n in (2, 3):
         for S, K in source_sink_sets(n, 2):
             add('n=%d,%s->%s' % (n, S, K), n=n, sources=S, sinks=K)
+    J.append(dict(module='harness.sparse_conf', func='conformance_job', name='sparse-shadow-conformance', kwargs={}, sig_prefix='trusted-base',
+                  deadline_s=dl))
+    for fmt in ('csr', 'csc', 'coo', 'lil', 'dok', 'dia', 'bsr'):
+        add('n=3,%s,[0]->[2]' % fmt, n=3, sources=[0], sinks=[2], container=fmt)
+        if fmt in ('csr', 'csc') or not q:
+            add('n=3,%s,[0]->[1,2]' % fmt, n=3, sources=[0], sinks=[1, 2], container=fmt)
     chain = [[abs(i - j) <= 1 for j in range(4)] for i in range(4)]
     add('n=4,chain,[0]->[3]', n=4, sources=[0], sinks=[3], zero_pattern=chain)
     if not q:
